@@ -57,4 +57,40 @@ Theorem C10_code_tie : forall capq rateq tok lst now,
 Proof. exact Equiv.consume_tie. Qed.
 Print Assumptions C10_code_tie.
 
+
+(* ---- tie to the code (server/middleware.py RateLimiter, TokenBucket): the statements of coq/Equiv/EquivMw.v, re-checked here against the definitions regenerated
+   from /repo's working tree (coq/Gen); see DESIGN.md 11.8 ---- *)
+From Coq Require Import List NArith ZArith QArith Bool.
+From NV Require Import Prelude.Str Prelude.Res Model.Bucket Model.Ip Model.Proxy Model.ServerProto Model.Session Equiv.ServerGlue Equiv.MwGlue.
+From NV Require Import Gen.MwGen.
+From NV Require Equiv.EquivMw.
+Theorem C10_code_tb_consume_tie : forall c now b,
+  gen_TokenBucket_consume now (EquivMw.pyb c b) (inject_Z 1) = let (ok, b') := consume c now b in (ok, EquivMw.pyb c b').
+Proof. exact EquivMw.tb_consume_tie. Qed.
+Print Assumptions C10_code_tb_consume_tie.
+
+Theorem C10_code_rl_process_tie : forall c retry st now url ip fp,
+  gen_rl_process now (cap c) (rate c) retry (EquivMw.table c st) url ip fp =
+  Ok (let (ok, st') := process c st now ip in (EquivMw.rl_answer retry ok, EquivMw.table c st')).
+Proof. exact EquivMw.rl_process_tie. Qed.
+Print Assumptions C10_code_rl_process_tie.
+
+Theorem C10_code_rl_cleanup_tie : forall c st now, NoDup (map fst st) ->
+  gen_rl_cleanup_pass now (EquivMw.table c st) = Ok (EquivMw.table c (cleanup c st now)).
+Proof. exact EquivMw.rl_cleanup_tie. Qed.
+Print Assumptions C10_code_rl_cleanup_tie.
+
+Theorem C10_code_process_keeps_keys_distinct : forall c st now ip, NoDup (map fst st) -> NoDup (map fst (snd (process c st now ip))).
+Proof. exact EquivMw.process_keeps_keys_distinct. Qed.
+Print Assumptions C10_code_process_keeps_keys_distinct.
+
+Theorem C10_code_cleanup_keeps_keys_distinct : forall c st now, NoDup (map fst st) -> NoDup (map fst (cleanup c st now)).
+Proof. exact EquivMw.cleanup_keeps_keys_distinct. Qed.
+Print Assumptions C10_code_cleanup_keeps_keys_distinct.
+
+Theorem C10_code_rl_run_tie : forall c retry h, EquivMw.gen_run c retry gen_RateLimiter_buckets_init h = Ok (Bucket.run c [] h).
+Proof. exact EquivMw.rl_run_tie. Qed.
+Print Assumptions C10_code_rl_run_tie.
+
+
 Close Scope Q_scope.
